@@ -112,14 +112,19 @@ func TestVerifC17Post(t *testing.T) {
 	// filling a queue call by call: exactly cap successes, then failures, and again after one slot is freed
 	for _, k := range []int{1, 3, ObsvReqChannelSize} {
 		ch := make(chan *gossipv1.ObservationRequest, k)
-		for i := 0; i < k+3; i++ {
+		skipped := false
+		for i := 0; i < k+3 && !skipped; i++ {
 			before := len(ch)
 			res := c17Post(ch, &gossipv1.ObservationRequest{ChainId: uint32(i)})
 			if res == "skipped" {
+				skipped = true
 				break
 			}
 			n++
 			fmt.Fprintf(w, "post p%d cap=%d fill=%d res=%s len=%d\n", n, k, before, res, len(ch))
+		}
+		if skipped || len(ch) == 0 {
+			continue
 		}
 		<-ch
 		before := len(ch)
